@@ -375,6 +375,9 @@ func (g *G) modelMsgrDomains() []uint32 {
 	return ds
 }
 
+// DomainsWithMessenger lists the domains that have a registered messenger (sorted).
+func (g *G) DomainsWithMessenger() []uint32 { return g.modelMsgrDomains() }
+
 func (g *G) pairsOf(d uint32) []PairEntry {
 	var ps []PairEntry
 	for _, p := range g.W.Model.Pairs {
@@ -931,6 +934,7 @@ type GenOpts struct {
 	UsedInGen    bool
 	UpperPairGen bool // link a pair through genesis with upper-case local token
 	MixedDenom   bool // in a fifth of the cases the minting denom has upper-case letters ("uUSDC")
+	ManyUsed     bool // an eighth of the cases start with 101..130 used nonces (more than one default query page)
 	ShortToken   bool // a third of the cases link (through genesis only) a pair whose remote token has 20 bytes
 	Decoys       bool // in a quarter of the cases the attester registry also holds odd entries (empty, truncated, non-hex)
 }
@@ -1013,6 +1017,12 @@ func (g *G) drawGenesis(o GenOpts) *GenSpec {
 	if o.UsedInGen {
 		for i := 0; i < rapid.IntRange(0, 3).Draw(t, "nused"); i++ {
 			gs.Used = append(gs.Used, UsedSpec{rapid.SampledFrom(Domains).Draw(t, "ud"), rapid.SampledFrom(Nonces).Draw(t, "un")})
+		}
+		gs.Used = dedupUsed(gs.Used)
+	}
+	if o.ManyUsed && rapid.IntRange(0, 7).Draw(t, "manyused") == 0 {
+		for i, k := 0, rapid.IntRange(101, 130).Draw(t, "nmany"); i < k; i++ {
+			gs.Used = append(gs.Used, UsedSpec{Domain: 0, Nonce: uint64(5000 + i)})
 		}
 		gs.Used = dedupUsed(gs.Used)
 	}
